@@ -627,7 +627,7 @@ GEN_SESSION = dict(module="Gen_Session", cfg={"quick": "Gen_Session.quick.cfg", 
 GEN_CONN = [dict(module="Gen_Conn", cfg={"quick": "Gen_Conn.quick.cfg", "thorough": "Gen_Conn.thorough.cfg"},
                  simulate={"quick": {"num": 150, "depth": 60}, "thorough": {"num": 2500, "depth": 80}}),
             # one script per transition of MC_Conn's state graph (quick: MaxPkts = 1, a twelfth of them chosen by the seed; thorough: MaxPkts = 2, all)
-            dict(module="Cover_Conn", cfg={"quick": "Cover_Conn.cfg", "thorough": "Cover_Conn.thorough.cfg"})]
+            dict(module="Cover_Conn", cfg={"quick": ["Cover_Conn.cfg", "Cover_Conn.cross.cfg"], "thorough": ["Cover_Conn.thorough.cfg", "Cover_Conn.cross.thorough.cfg"]})]
 
 REGISTRY = {
     "C01": dict(mode="c01", mc=[MC_STREAMER], trace_module="Trace_Stream", trace_cfg="Trace_Stream.cfg", props=["C01"],
